@@ -397,17 +397,18 @@ def gen_moot(rng, name, later, budget, uniq, with_me=True, with_main=True):
             p = gen_poke(rng, False, names, with_me)
             st.append(p)
             st.append({"k": "rec", "tag": "%s.%s.p%d" % (name, f["name"], j), "ctx": p["ctx"]})
-        if later and budget - size > 0 and rng.random() < 0.6:
-            cands = [(n, s) for n, s in later if s <= budget - size]
-            if cands:
-                n, s = rng.choice(cands)
-                as_ = "mine" if rng.random() < 0.6 else "n%d" % uniq()
-                via = rng.choice(VIA_AUX)
-                if via and via.endswith("b"):
-                    via = via + str(uniq())
-                st.append({"k": "aux", "moot": n, "as": as_, "via": via})
-                nests.append(n)
-                size += s
+        for _nest in range(rng.choice([1, 1, 2, 3])):       # sometimes several nested clones in one frame
+            if later and budget - size > 0 and rng.random() < 0.6:
+                cands = [(n, s) for n, s in later if s <= budget - size]
+                if cands:
+                    n, s = rng.choice(cands)
+                    as_ = "mine" if rng.random() < 0.6 else "n%d" % uniq()
+                    via = rng.choice(VIA_AUX)
+                    if via and via.endswith("b"):
+                        via = via + str(uniq())
+                    st.append({"k": "aux", "moot": n, "as": as_, "via": via})
+                    nests.append(n)
+                    size += s
         for _ in range(rng.randint(1, 2)):
             far = rng.choice(names + ["next", "me"])
             if far == "next" and f["name"] == names[-1]:
